@@ -22,6 +22,19 @@ structure MapRange where
   fingerprint : String  -- hash of the enclosing function's source
 deriving Repr, DecidableEq
 
+structure PosOrder where
+  file : String
+  func : String
+  expr : String
+deriving Repr, DecidableEq
+
+structure GlobalWrite where
+  file : String
+  func : String
+  var : String
+  kind : String        -- assign | element | incdec
+deriving Repr, DecidableEq
+
 structure UncheckedOp where
   file : String
   func : String
